@@ -513,3 +513,12 @@ M("C26", "interrupted run forces a snapshot from the exception handler", "kill",
     "        try:\n            while not impl.is_finished():\n                impl.progress()\n        except BaseException:\n            impl.last_save_time = 0.0\n            impl.save_simulation()\n            raise\n")], "SAVE-callers")
 M("C27", "resume forces an immediate snapshot", "kill",
   [(BK, "        impl.last_save_time = time.time()\n", "        impl.last_save_time = 0.0\n")], "SAVE-callers")
+LO2 = "emu_sv/lindblad_operator.py"
+M("C16", "Lindbladian fast path chosen from sin(phi)", "kill",
+  [(LO2, "        self.complex = self.phis.any()\n", "        self.complex = bool(torch.sin(self.phis).any())\n")], "PHASE-shortcut")
+M("C01", "Hamiltonian fast path taken when phases are present", "kill",
+  [("emu_sv/hamiltonian.py", "        if self.complex:\n            self._apply_sigma_operators_complex(result, vec)\n        else:\n            self._apply_sigma_operators_real(result, vec)",
+    "        if not self.complex:\n            self._apply_sigma_operators_complex(result, vec)\n        else:\n            self._apply_sigma_operators_real(result, vec)")], "PHASE-shortcut")
+M("C06", "Lindbladian local term: phase-free formula on the complex side", "kill",
+  [(LO2, "        if not self.complex:\n            return omega * sigma_x", "        if self.complex:\n            return omega * sigma_x")], "PHASE-shortcut")
+M("C16", "twin: flag written with torch.any", "twin", [(LO2, "        self.complex = self.phis.any()\n", "        self.complex = torch.any(self.phis != 0)\n")])
